@@ -125,16 +125,21 @@ Proof.
   rewrite (init_v2_valid h V). reflexivity.
 Qed.
 
-(** the XML declaration (either quote) holds no start of an OFX declaration *)
-Lemma xml_decl_skip q t : (q = 34 \/ q = 39) -> search_v2 (xml_decl_q q ++ t) = search_v2 t.
+(** the XML declaration (any quotes, any of the pseudo-attributes) holds no start of an OFX declaration *)
+Lemma quote_cases o : quote_ok o = true -> o = None \/ o = Some 34 \/ o = Some 39.
+Proof. destruct o as [c|]; [|left; reflexivity]. cbn [quote_ok]. intro H. right. destruct (c =? 34) eqn:E; [left; f_equal; lia|right; f_equal; lia]. Qed.
+Lemma xml_decl_gen_skip v e s t : quote_ok v = true -> quote_ok e = true -> quote_ok s = true ->
+  search_v2 (xml_decl_gen v e s ++ t) = search_v2 t.
 Proof.
-  intro Q. assert (E : exists x, xml_decl_q q = 60 :: x /\ forallb (fun c => negb (c =? 60)) x = true).
-  { destruct Q; subst q; eexists; (split; [reflexivity|vm_compute; reflexivity]). }
-  destruct E as [x [E F]]. rewrite E. cbn [app]. unfold search_v2 at 1. cbn [search].
-  assert (M : match_v2_at (60 :: x ++ t) = None).
-  { destruct Q; subst q; injection E as E; subst x; reflexivity. }
-  rewrite M. fold (search_v2 (x ++ t)). apply search_v2_skip. exact F.
+  intros Qv Qe Qs.
+  assert (E : exists x, xml_decl_gen v e s = 60 :: x /\ forallb (fun c => negb (c =? 60)) x = true /\ forall t, match_v2_at (60 :: x ++ t) = None).
+  { destruct (quote_cases v Qv) as [-> | [-> | ->]]; destruct (quote_cases e Qe) as [-> | [-> | ->]]; destruct (quote_cases s Qs) as [-> | [-> | ->]];
+      (eexists; split; [reflexivity|split; [vm_compute; reflexivity|intro; reflexivity]]). }
+  destruct E as [x [E [F M]]]. rewrite E. cbn [app]. unfold search_v2 at 1. cbn [search]. rewrite M.
+  fold (search_v2 (x ++ t)). apply search_v2_skip. exact F.
 Qed.
+Lemma xml_decl_skip q t : (q = 34 \/ q = 39) -> search_v2 (xml_decl_q q ++ t) = search_v2 t.
+Proof. intro Q. unfold xml_decl_q. apply xml_decl_gen_skip; destruct Q; subst q; reflexivity. Qed.
 
 Lemma str_v2_layout h : str_v2 h = xml_decl_q 34 ++ CRLF ++ ofx_decl h ++ CRLF.
 Proof. unfold str_v2, ofx_decl, xml_decl, xml_decl_q. repeat rewrite <- app_assoc. reflexivity. Qed.
